@@ -32,10 +32,11 @@ Definition kind_of (e : exc) : rk :=
 
 Definition derives_from_Exception (e : exc) : bool := isinstance e CException.
 
-(* the inputs of the quantifier: handlers the user inserted are for Exception-derived classes
+(* the inputs of the quantifier: the handlers the user has put in front of exception_handlers -
+   before the run or while it runs (Spec.Run.user_handlers) - are for Exception-derived classes
    (handlers for other classes belong to C03), exceptions are well formed *)
 Definition wf (i : input) : bool :=
-  wf_prog (i_prog i) && forallb (fun co => subclass (fst co) CException) (p_handlers (i_prog i)).
+  wf_prog (i_prog i) && forallb (fun co => subclass (fst co) CException) (user_handlers (i_prog i)).
 
 (* startTest, exactly one outcome, stopTest (a StreamResult gets no event for stopTest) *)
 Definition bracket (f : flavour) (evs : list ev) : option outcome :=
